@@ -6,7 +6,7 @@
   "C02"
  ],
  "level": "U/k",
- "tier": "wip",
+ "tier": "quick",
  "harness": "h_ea_fetch",
  "enforce": [
   "ea_refcount_fetch"
@@ -38,7 +38,8 @@
   "after el = get_refcount_el(..) a ghost statement asserts that el is the entry at the lower bound of the key and re-assigns el that same address in typed form (points-to precision only)",
   "needs the ghost anchors of hooks-pending/ds.diff in e2fsck/ea_refcount.c"
  ],
- "native": false
+ "native": false,
+ "tier_after_hooks": "quick"
 }
 */
 /* VERIF-UNIT
@@ -49,7 +50,7 @@
   "C02"
  ],
  "level": "U/k",
- "tier": "wip",
+ "tier": "quick",
  "harness": "h_ea_decrement",
  "enforce": [
   "ea_refcount_decrement"
@@ -81,7 +82,8 @@
   "after el = get_refcount_el(..) a ghost statement asserts that el is the entry at the lower bound of the key and re-assigns el that same address in typed form (points-to precision only)",
   "needs the ghost anchors of hooks-pending/ds.diff in e2fsck/ea_refcount.c"
  ],
- "native": false
+ "native": false,
+ "tier_after_hooks": "quick"
 }
 */
 /* VERIF-UNIT
@@ -92,7 +94,7 @@
   "C02"
  ],
  "level": "U/k",
- "tier": "wip",
+ "tier": "quick",
  "harness": "h_ea_increment",
  "enforce": [],
  "replace": [
@@ -129,7 +131,7 @@
   "the contract of the operation is stated by the harness (ASSUME precondition, CHECK postconditions) \u2014 no frame (assigns) obligations in this unit: enforcing the frame on the insertion paths exceeds the memory limit; the frame of the lookup paths is checked by ea_refcount_fetch / ea_refcount_decrement"
  ],
  "native": false,
- "backend": "cadical"
+ "tier_after_hooks": "quick"
 }
 */
 /* VERIF-UNIT
@@ -140,7 +142,7 @@
   "C02"
  ],
  "level": "U/k",
- "tier": "wip",
+ "tier": "thorough",
  "harness": "h_ea_increment",
  "enforce": [],
  "replace": [
@@ -177,7 +179,9 @@
   "the contract of the operation is stated by the harness (ASSUME precondition, CHECK postconditions) \u2014 no frame (assigns) obligations in this unit: enforcing the frame on the insertion paths exceeds the memory limit; the frame of the lookup paths is checked by ea_refcount_fetch / ea_refcount_decrement"
  ],
  "native": false,
- "backend": "cadical"
+ "timeout": 900,
+ "no_cross_check": true,
+ "tier_after_hooks": "thorough"
 }
 */
 /* VERIF-UNIT
@@ -188,7 +192,7 @@
   "C02"
  ],
  "level": "U/k",
- "tier": "wip",
+ "tier": "quick",
  "harness": "h_ea_store",
  "enforce": [],
  "replace": [
@@ -225,7 +229,7 @@
   "the contract of the operation is stated by the harness (ASSUME precondition, CHECK postconditions) \u2014 no frame (assigns) obligations in this unit: enforcing the frame on the insertion paths exceeds the memory limit; the frame of the lookup paths is checked by ea_refcount_fetch / ea_refcount_decrement"
  ],
  "native": false,
- "backend": "cadical"
+ "tier_after_hooks": "quick"
 }
 */
 /* VERIF-UNIT
@@ -236,7 +240,7 @@
   "C02"
  ],
  "level": "U/k",
- "tier": "wip",
+ "tier": "thorough",
  "harness": "h_ea_store",
  "enforce": [],
  "replace": [
@@ -273,7 +277,9 @@
   "the contract of the operation is stated by the harness (ASSUME precondition, CHECK postconditions) \u2014 no frame (assigns) obligations in this unit: enforcing the frame on the insertion paths exceeds the memory limit; the frame of the lookup paths is checked by ea_refcount_fetch / ea_refcount_decrement"
  ],
  "native": false,
- "backend": "cadical"
+ "timeout": 900,
+ "no_cross_check": true,
+ "tier_after_hooks": "thorough"
 }
 */
 #include "ea_common.h"
